@@ -85,7 +85,7 @@ func mkOuter(withPInner bool) Outer {
 	core := Core{"core.Alpha", "core.Beta", "core.Gamma"}
 	in := Inner{Name: "inner.Name", Deep: "inner.Deep", hidden: 1, Core: core}
 	o := Outer{Name: "outer.Name", Age: 42, Inner: in, Tags: append(make([]string, 0, 16), "t0", "t1", "t2", "HIDDEN", "HIDDEN")[:3], // spare capacity: nothing behind len may be reachable
-		M: map[string]int{"a": 1, "zero": 0},
+		M: map[string]int{"a": 1, "zero": 0, "": 42},
 		P: &Inner{Name: "inner.Name", Deep: "inner.Deep", hidden: 1, Core: core}, I: in, NI: in, secret: "secret", Arr: [2]string{"a0", "a1"}, S: "hi",
 		MN: map[NamedKey]string{"k": "mn.k"}, MI: map[int]string{1: "mi.1"}}
 	if withPInner {
